@@ -25,6 +25,7 @@ func init() {
 
 func runC17(p *load.Program, r *oblig.Report) {
 	c17DontExpectEOF(p, r)
+	c17BatchEOF(p, r)
 	c17Sticky(p, r)
 	c17Shared(p, r)
 	c17RoundTrip(p, r)
@@ -684,4 +685,54 @@ func transportDeadline(p *load.Program, r *oblig.Report, rule string) {
 	}
 	r.Check(whole, rule, "kafka.(*conn).roundTrip applies the context's deadline to the write and the read of the exchange", p.Pos(fn.Pos()),
 		"if deadline, ok := ctx.Deadline(); ok { pc.SetDeadline(deadline) }", found)
+}
+
+// c17BatchEOF: io.EOF is how a Batch says "the batch was read to its end". An end of stream met in the middle of the
+// response is stored in batch.err as io.ErrUnexpectedEOF (dontExpectEOF); the very call that met it must return that
+// same error, not the raw io.EOF, or the caller takes a cut response for a complete batch.
+func c17BatchEOF(p *load.Program, r *oblig.Report) {
+	const rule = "C17.R1 EOF inside a frame becomes ErrUnexpectedEOF"
+	fn := p.Func("", "(*Batch).readMessage")
+	if fn == nil {
+		r.Lost(rule, "kafka.(*Batch).readMessage")
+		return
+	}
+	// what the function returns as its error
+	retVals := map[ssa.Value]bool{}
+	var walk func(v ssa.Value)
+	walk = func(v ssa.Value) {
+		if retVals[v] {
+			return
+		}
+		retVals[v] = true
+		if ph, ok := v.(*ssa.Phi); ok {
+			for _, e := range ph.Edges {
+				walk(e)
+			}
+		}
+	}
+	an.EachInstr(fn, func(ins ssa.Instruction) {
+		if ret, ok := ins.(*ssa.Return); ok && ret.Parent() == fn && len(ret.Results) > 0 {
+			walk(an.RetVal(ret, len(ret.Results)-1))
+		}
+	})
+	n := 0
+	var bad []string
+	an.EachInstr(fn, func(ins ssa.Instruction) {
+		st, ok := fieldStoreIs(ins, "Batch", "err")
+		if !ok {
+			return
+		}
+		call, isCall := st.Val.(*ssa.Call)
+		if !isCall || call.Call.StaticCallee() == nil || an.RefFuncName(call.Call.StaticCallee()) != "dontExpectEOF" {
+			return
+		}
+		n++
+		raw := call.Call.Args[0]
+		if retVals[raw] && !retVals[call] {
+			bad = append(bad, "batch.err = dontExpectEOF(err) at "+p.Pos(st.Pos())+" but the call returns the unconverted error")
+		}
+	})
+	r.Check(n > 0 && len(bad) == 0, rule, "kafka.(*Batch).readMessage returns the converted error it stores in batch.err", p.Pos(fn.Pos()),
+		"err = dontExpectEOF(err); batch.err = err", strings.Join(bad, "; "))
 }
